@@ -244,6 +244,22 @@ theorem C19_kwarg_strip_terminates (accepts kw : List String) :
     (stripLoop accepts (kw.length + 1) kw).isSome = true := by
   rw [C19_kwarg_strip_result accepts _ kw (Nat.lt_succ_self _)]; rfl
 
+/-- keyword arguments of `build_antennas` reach exactly the sub-detectors that accept them: with
+differing signatures each sub-detector gets the keywords that are parameters of its own method, in
+their original order; with identical signatures everything is passed down unchanged (and a keyword
+they do not take is an error rather than silently dropped). -/
+theorem C19_build_kwargs_routed (subs : List (List String)) (kw : List String) :
+    (∀ p r, subs = p :: r → r.all (· == p) = false →
+      buildRoute subs kw = some (subs.map (fun q => kw.filter (q.contains ·)))) ∧
+    (∀ p r, subs = p :: r → r.all (· == p) = true → kw.all (p.contains ·) = true →
+      buildRoute subs kw = some (subs.map (fun _ => kw))) ∧
+    (∀ p r, subs = p :: r → r.all (· == p) = true → kw.all (p.contains ·) = false →
+      buildRoute subs kw = none) := by
+  refine ⟨?_, ?_, ?_⟩ <;> intro p r hs <;> subst hs <;> intro h
+  · simp [buildRoute, h]
+  · intro h2; simp only [buildRoute, h, h2, if_true]
+  · intro h2; simp only [buildRoute, h, h2, if_true]; simp
+
 /-! ### non-vacuity: the hypotheses above are met by concrete detectors -/
 private def a1 : Ant := ⟨1, false, false, false⟩
 private def a2 : Ant := ⟨2, true, false, false⟩
@@ -261,3 +277,5 @@ example : allDefault d1 = true ∧ triggered false d1 = true ∧ triggered true 
 example : stripLoop ["a"] 4 ["x", "a", "y"] = some ["a"] := by decide
 example : trig 100 (.comb [d1, d2]) [rmt, "thr"] true =
     (.ok true, [(1, ["thr", rmt]), (2, [rmt])]) := by decide
+example : buildRoute [["antenna_class", "p"], ["antenna_class", "q"]] ["antenna_class", "q", "z"] =
+    some [["antenna_class"], ["antenna_class", "q"]] := by decide
